@@ -66,6 +66,15 @@ CHECKS['C14'] = {
                   'Precondition not proved of callers: total source bytes < 2^32 - 1.',
 }
 
+CHECKS['C08'] = {
+    'engine': 'V',
+    'technique': 'Verus panic/overflow/bounds/termination obligations of every function under contract (roll-up of all units)',
+    'level_text': 'Unbounded deductive proof (Verus) that no panic!, failed assert!/assert_eq!, index out of bounds, arithmetic overflow or division by zero is reachable in any of the '
+                  'functions under contract (listed in the evidence file) for inputs satisfying the stated preconditions, and that their loops terminate where a decreases clause is given.',
+    'level_note': 'Partial by construction: covers only the functions under contract (about 45 of the code base), under their preconditions; the other panic sites, stack depth and the time bound of compile() are not decided. '
+                  'Two pointer-range debug_asserts in TokenStream::next are outside the verifier memory model (assumed). Termination of get_type_layout/has_same_offsets recursion is not verified.',
+}
+
 NOT_APPLICABLE = {
     'C01': 'not yet built in this session (planned partial claim: literal values and operator identity in the HLSL exporter); see DESIGN.md §3 C01',
     'C02': 'MSL meaning preservation: the Metal generator is three monoliths (4.5k+2.2k+1k lines) over HashMap-backed context; no formal MSL semantics or function-level contract within reach of Verus/Kani',
